@@ -421,8 +421,8 @@ class ExecMixin:
 
     # ---------------------------------------------------------------- loops
     def exec_While(self, st, state):
-        self._loopid += 1
-        lc = LoopCtx(self._loopid, f"w{self._loopid}", Length(None, 0, INF), False)
+        lid = self.site_id("while", st)
+        lc = LoopCtx(lid, f"w{lid}", Length(None, 0, INF), False)
         self.token_loop[lc.token] = lc.loopid
         self.loops.append(lc)
         self.ctl.append(lc)
@@ -504,27 +504,31 @@ class ExecMixin:
         frame = self.stack[-1]
         if seq.fixed is not None and len(seq.fixed) <= UNROLL and seq.witness is None:
             # concrete unrolling: no token; the context only collects break/continue
-            self._loopid += 1
-            lc = LoopCtx(self._loopid, f"u{self._loopid}", seq.length, True)
-            for x in seq.fixed:
+            lid = self.site_id("unrolled", node)
+            lc = LoopCtx(lid, f"u{lid}", seq.length, True)
+            for ui, x in enumerate(seq.fixed):
                 if state.bottom:
                     break
                 self.ctl.append(lc)
+                self.unroll_idx.append(ui)
                 try:
                     bind(x, state)
                     if not state.bottom:
                         body(state)
                 finally:
                     self.ctl.pop()
+                    self.unroll_idx.pop()
                 out = self.join_all([state] + lc.continues)
                 lc.continues.clear()
                 state.assign_from(out)
             if lc.breaks:
                 state.assign_from(self.join_all([state] + lc.breaks))
             return
-        self._loopid += 1
-        covering = not (seq.flags & {"partial", "unmodelled", "reordered", "building", "weak-append"})
-        lc = LoopCtx(self._loopid, f"t{self._loopid}", seq.length, covering)
+        lid = self.site_id("for", node)
+        # coverage of a family parameter's domain is decided by length-term equality at generalisation time;
+        # the flags only exclude sequences whose positions are not modelled at all
+        covering = not (seq.flags & {"unmodelled", "building", "weak-append"})
+        lc = LoopCtx(lid, f"t{lid}", seq.length, covering)
         self.token_loop[lc.token] = lc.loopid
         elem_t = subst_val(seq.elem, {seq.kvar: ivar(lc.token)})
         lo, hi = seq.length.lo, seq.length.hi
